@@ -16,7 +16,12 @@ Two further dimensions of the quantifier are driven the same way (spec action ->
 * a rename fault (LogFaultOn/Off, LogWriteRollFails -> `log_pin`/`log_unpin` = the current log file bind-mounted onto
   itself inside the driver's PRIVATE mount namespace, so that archive_file's fs::rename fails with EBUSY while
   appending works -> {"e":"fault"} lines and refused writes "ok":0): the size bound must hold throughout
-  (generator mode "logfault", and in the random histories)."""
+  (generator mode "logfault", and in the random histories);
+* a run killed INSIDE a roll (LogKilledInRoll -> the driver restarted under `strace inject=unlink:signal=KILL:when=j+1`
+  gets a real SIGKILL in archive_file after the rename and j removals; the next run finds what is left ->
+  {"e":"killed"}): one file too many per such kill is tolerated only until the next roll completes; after every
+  completed roll the count is <= max whatever was found (T_LogCount with the kill debt, T_LogCountAfterRoll)
+  (generator mode "rollkill", DiskBounds_kill.cfg, and in the random histories)."""
 import json
 import os
 import random
@@ -33,6 +38,7 @@ UNIT = 64                      # bytes per abstract size unit of DiskBounds.tla
 MARK = "@C19@ "
 LOG_A = "ProxyAgent.log"       # the names service.rs gives to its two loggers (same directory)
 LOG_B = "ProxyAgent.Connection.log"
+DUMP_TAGS = ["rules-9", "rules-10", "rules-2", "zz-1", "rules-10", "A0", "rules-9", "b", "0001", "rules-3", "Z9"]
 TOKEN = re.compile(r"#([A-Za-z0-9]+)#")
 MODEL = {"maxCount": 3, "limit": 4 * UNIT, "cap": 3, "maxDumps": 3}          # = the constants of the .cfg files
 REAL = {"maxCount": 5, "limit": 10 * 1024 * 1024, "cap": 30, "maxDumps": 5}  # proxy_agent/src/common/constants.rs
@@ -40,8 +46,13 @@ REAL = {"maxCount": 5, "limit": 10 * 1024 * 1024, "cap": 30, "maxDumps": 5}  # p
 ASSUME = [
     "TLC 1.8 and the CommunityModules Json/IOUtils are correct",
     "operations are atomic as in the statement's quantifier (sequences of whole writes, bursts, rule dumps and "
-    "restarts BETWEEN them); a process killed between the rename and the removals of one roll is analysed "
-    "separately (DiskBounds_crash.cfg, coverage.crash_window) and is not part of the verdict",
+    "restarts BETWEEN them), with one exception that is part of the verdict: a run killed inside a roll after the "
+    "rename and before the removals are complete leaves 'files left by earlier runs'; the count may then exceed "
+    "the configured one by the number of such kills until the next roll completes, and never after a completed "
+    "roll.  Kills at the other system calls of a write are analysed on the model only (DiskBounds_crash.cfg, "
+    "coverage.crash_window)",
+    "the kill is a real SIGKILL injected by strace on entering the (j+1)-th unlink of the process; the removal "
+    "loop of archive_file is the only code of the driver process that unlinks",
     "one writer per rolling log (no two threads inside RollingLogger::write at once)",
     "the wall clock does not step backwards between two rolls / two dumps (archive and dump names carry the UTC "
     "time and 'oldest' is decided by name order in the code)",
@@ -64,22 +75,34 @@ ASSUME = [
 # ----------------------------------------------------------------------------------------------------------------
 # driver process
 
+class Died(Exception):
+    """the driver process ended while a command was outstanding (expected under kill injection)"""
+
+
 class Proc:
-    def __init__(self, exe, cwd, errpath):
+    def __init__(self, exe, cwd, errpath, kill_at_unlink=0):
         self.err = open(errpath, "ab")
         # private mount namespace: the bind mounts of `log_pin` exist only for this process and vanish with it
-        self.p = subprocess.Popen(["unshare", "-m", "--propagation", "private", exe], cwd=cwd,
+        argv = ["unshare", "-m", "--propagation", "private", exe]
+        if kill_at_unlink:
+            # SIGKILL on entering the N-th unlink of the process: RollingLogger::archive_file's removal loop is the
+            # only code of the driver that unlinks, so this is "after the rename and N-1 removals of a roll"
+            argv = ["strace", "-f", "-qq", "-o", "/dev/null", "-e", "trace=unlink,unlinkat",
+                    "-e", "inject=unlink,unlinkat:signal=KILL:when=%d" % kill_at_unlink] + argv
+        self.p = subprocess.Popen(argv, cwd=cwd,
                                   stdin=subprocess.PIPE, stdout=subprocess.PIPE, stderr=self.err,
                                   env=dict(os.environ, VERIF_CMD="disk", RUST_BACKTRACE="0",
                                            VERIF_PARENT_MNTNS=os.readlink("/proc/self/ns/mnt")), bufsize=0)
         self.buf = b""
         self.errpath = errpath
 
-    def call(self, cmd, timeout=60):
+    def call(self, cmd, timeout=60, may_die=False):
         try:
             self.p.stdin.write((json.dumps(cmd) + "\n").encode())
             self.p.stdin.flush()
         except (BrokenPipeError, OSError) as ex:
+            if may_die:
+                raise Died()
             raise util.ToolError("disk driver died (%s): %s" % (ex, self._errtail()))
         t_end = time.time() + timeout
         while True:
@@ -99,6 +122,8 @@ class Proc:
             if rd:
                 chunk = os.read(self.p.stdout.fileno(), 1 << 16)
                 if not chunk:
+                    if may_die:
+                        raise Died()
                     raise util.ToolError("disk driver exited (rc=%s) on %s: %s"
                                          % (self.p.poll(), json.dumps(cmd)[:200], self._errtail()))
                 self.buf += chunk
@@ -125,6 +150,20 @@ class Proc:
     def kill(self):
         self.p.kill()
         self.p.wait()
+
+    def reap(self):
+        """after Died: collect the exit status"""
+        try:
+            rc = self.p.wait(timeout=20)
+        except subprocess.TimeoutExpired:
+            self.kill()
+            raise util.ToolError("disk driver closed its output but did not exit")
+        for f in (self.p.stdin, self.p.stdout, self.err):
+            try:
+                f.close()
+            except OSError:
+                pass
+        return rc
 
 
 # ----------------------------------------------------------------------------------------------------------------
@@ -160,6 +199,8 @@ class World:
         self.stopped = False                                 # event_logger::stop() handled in this process
         self.refused = 0                                     # writes the logger refused
         self.stops_full = 0                                  # graceful stops that found the event directory full
+        self.kills = 0                                       # runs killed inside a roll (real SIGKILL)
+        self.ndump = 0
 
     # --- setup ---------------------------------------------------------------------------------------------------
     def prefill(self, arch_units, cur_units, ev, ndumps):
@@ -186,8 +227,8 @@ class World:
         with open(path, "w") as f:
             f.write(data)
 
-    def start(self):
-        self.proc = Proc(self.exe, self.rundir, os.path.join(self.root, "stderr.txt"))
+    def start(self, kill_at_unlink=0):
+        self.proc = Proc(self.exe, self.rundir, os.path.join(self.root, "stderr.txt"), kill_at_unlink)
         r = None
         for k, nm in self.lognames.items():
             r = self.proc.call({"op": "log_open", "key": k, "dir": self.logs, "name": nm,
@@ -347,9 +388,10 @@ class World:
         return v
 
     def dump(self):
-        self.tok += 1
-        r = self.proc.call({"op": "dump_write", "dir": self.logs, "max": self.conf["maxDumps"],
-                            "tag": "rules-%d" % self.tok})
+        # rule-set ids are whatever the host sends: they neither grow nor sort like time (9 -> 10, roll-backs)
+        tag = DUMP_TAGS[self.ndump % len(DUMP_TAGS)]
+        self.ndump += 1
+        r = self.proc.call({"op": "dump_write", "dir": self.logs, "max": self.conf["maxDumps"], "tag": tag})
         if not r.get("ok"):
             self.notes.append({"op": "dump", "panic": r.get("panic")})
         d = self.dump_view(r["files"])
@@ -367,6 +409,52 @@ class World:
         for k in self.rows_extra:
             self.log_view(k, logs)
         return {"arch": v["arch"], "cur": v["cur"], "dumps": self.dump_view(logs), "ev": self.ev_view(evs)["ev"]}
+
+    def cur_size(self, key="a"):
+        return self.prev[key].get(self.lognames[key], (None, -1))[1]
+
+    def fill(self, key="a"):
+        """one ordinary write that takes the current file to its limit (so that the next write has to roll)"""
+        return self.write(max(48, self.conf["limit"] - max(self.cur_size(key), 0)), key=key)
+
+    def kill_in_roll(self, nbytes, j, key="a"):
+        """The process is restarted under kill injection and writes nbytes: it gets a real SIGKILL on entering the
+        (j+1)-th unlink, i.e. inside RollingLogger::archive_file after the rename and j removals.  The next run
+        finds what is left (line "killed").  If that write needs no (j+1)-th removal nobody dies: it is an ordinary
+        write followed by a restart."""
+        if not shutil.which("strace"):
+            raise util.ToolError("strace is needed for the kill-inside-a-roll dimension of C19")
+        self.stop()
+        self.start(kill_at_unlink=j + 1)
+        self.rows.append({"e": "restart"})
+        self.tok += 1
+        try:
+            r = self.proc.call({"op": "log_write", "key": key, "token": "w%d" % self.tok, "bytes": nbytes},
+                               may_die=True)
+        except Died:
+            rc = self.proc.reap()
+            self.proc = None
+            if rc not in (-9, 137):
+                raise util.ToolError("kill injection: the driver ended with status %s instead of SIGKILL" % rc)
+            logs, evs = self.start()
+            self.kills += 1
+            self.nontrivial = True
+            v = self.log_view(key, logs)
+            for k in self.lognames:
+                if k != key:
+                    self.log_view(k, logs)
+            (self.rows if key == "a" else self.rows_extra[key]).append({"e": "killed", "n": nbytes, "files": v["files"]})
+            if key != "a":
+                self.rows.append({"e": "restart"})
+            return {"arch": v["arch"], "cur": v["cur"], "dumps": self.dump_view(logs), "ev": self.ev_view(evs)["ev"],
+                    "killed": True}
+        ok = bool(r.get("ok"))
+        if not ok:
+            self.refused += 1
+        v = self.log_view(key, r["files"])
+        (self.rows if key == "a" else self.rows_extra[key]).append(
+            {"e": "write", "n": nbytes, "ok": int(ok), "files": v["files"]})
+        return dict(self.restart(), killed=False)
 
     def segments(self):
         segs = [self.rows]
@@ -411,10 +499,16 @@ def apply_step(w, step, rnd):
         return w.evstop()
     if op in ("pin", "unpin"):
         return w.pin(step.get("key", "a"), on=(op == "pin"))
+    if op == "kill":
+        if step.get("fill") and w.cur_size(step.get("key", "a")) < w.conf["limit"]:
+            w.fill(step.get("key", "a"))
+        return w.kill_in_roll(step["bytes"], step.get("j", 0), key=step.get("key", "a"))
     raise util.ToolError("unknown step %r" % (step,))
 
 
 def expected_of(h):
+    if h.get("op") == "kill":
+        return {"arch": [u * UNIT for u in h["arch"]], "cur": -1, "ev": h["ev"], "dumps": h["dumps"], "killed": True}
     return {"arch": [u * UNIT for u in h["arch"]], "cur": h["cur"] * UNIT if h["cur"] >= 0 else -1,
             "ev": h["ev"], "wrote": h["wrote"], "dumps": h["dumps"], "refused": bool(h.get("refused"))}
 
@@ -426,6 +520,9 @@ def steps_of_hist(hist, rnd):
         if h["op"] == "write":
             s["bytes"] = h["n"] * UNIT
             s["many"] = rnd.random() < 0.25
+        elif h["op"] == "kill":
+            s["bytes"] = h["n"] * UNIT
+            s["j"] = h["j"]
         elif h["op"] in ("push", "remove"):
             s["n"] = h["n"]
         steps.append(s)
@@ -478,6 +575,10 @@ def random_history(rnd, conf, nops, big=False):
             steps.append({"op": "stop"})
             if rnd.random() < 0.8:
                 steps.append({"op": "restart"})
+        elif y < 0.085 and not big:
+            # a run killed inside a roll (the current file is first taken to its limit), then the next run
+            steps.append({"op": "kill", "fill": True, "bytes": rnd.choice([48, 64, 200]), "j": rnd.choice([0, 0, 0, 1]),
+                          "key": rnd.choice(["a", "a", "b"])})
         if x < 0.45:
             if big:
                 n = rnd.choice([lim // 10, lim // 3, lim // 2, lim - 1, lim, lim + 1, rnd.randint(48, lim // 2)])
@@ -585,6 +686,8 @@ def run(c):
     c.tlc("DiskBounds", "DiskBounds_log.cfg", workers=8, timeout=300,
           required_actions=["LogWriteNoRoll", "LogWriteRollKeep", "LogWriteRollTrim", "LogWriteRollFails",
                             "LogFaultOn", "LogFaultOff", "Restart"])
+    c.tlc("DiskBounds", "DiskBounds_kill.cfg", workers=8, timeout=300,
+          required_actions=["LogKilledInRoll", "LogWriteNoRoll", "LogWriteRollKeep", "LogWriteRollTrim", "Restart"])
     c.tlc("DiskBounds", "DiskBounds_event.cfg", workers=8, timeout=300,
           required_actions=["EvPush", "EvPushClosed", "EvTickIdle", "EvTickWrite", "EvTickDrop", "EvTickStopped",
                             "EvStopIdle", "EvStopWrite", "EvStopDrop", "EvReaderRemove", "Restart"])
@@ -603,9 +706,11 @@ def run(c):
     plans = [("all", 14, 150 if thorough else 22), ("log", 14, 200 if thorough else 14),
              ("event", 12, 40 if thorough else 5), ("dumps", 10, 10 if thorough else 3),
              # directed: stop/restart cycles over full event directories; writes while the rename fails
-             ("evstop", 12, 60 if thorough else 8), ("logfault", 12, 40 if thorough else 6)]
+             # ... ; a run killed inside a roll (real SIGKILL), the next runs rolling on
+             ("evstop", 12, 60 if thorough else 8), ("logfault", 12, 40 if thorough else 6),
+             ("rollkill", 14, 40 if thorough else 5)]
     if thorough:
-        plans += [("all", 40, 100), ("log", 60, 60), ("evstop", 30, 30), ("logfault", 30, 30)]
+        plans += [("all", 40, 100), ("log", 60, 60), ("evstop", 30, 30), ("logfault", 30, 30), ("rollkill", 30, 20)]
     hists, directed = [], []
     for k, (machine, depth, num) in enumerate(plans):
         res = c.tlc("DiskBoundsGen", "DiskBoundsGen.cfg", subdir="gen", workers=1, coverage=False, timeout=900,
@@ -615,7 +720,7 @@ def run(c):
         hs = tlcmod.printed_json(res, "REPLAY")
         if not hs:
             raise util.ToolError("generator printed no behaviour for %s" % machine)
-        if machine in ("evstop", "logfault"):
+        if machine in ("evstop", "logfault", "rollkill"):
             directed += hs
         else:
             hists += hs
@@ -643,13 +748,20 @@ def run(c):
     refusals = sum(1 for h in uniq for x in h[1:] if x.get("refused"))
     c.extra["stops_over_full_directory_replayed"] = stop_at_cap
     c.extra["writes_during_rename_fault_needing_a_roll_replayed"] = refusals
-    if stop_at_cap < 3 or refusals < 10:
-        raise util.ToolError("generated behaviours do not exercise stop-at-cap (%d) / refused writes (%d)"
-                             % (stop_at_cap, refusals))
+    kills = sum(1 for h in uniq for x in h[1:] if x["op"] == "kill")
+    rolls_after_kill = sum(1 for h in uniq for i in range(2, len(h))
+                           if h[i]["op"] == "write" and h[i - 1]["cur"] >= MODEL["limit"] // UNIT
+                           and any(x["op"] == "kill" for x in h[1:i]))
+    c.extra["kills_inside_a_roll_replayed"] = kills
+    c.extra["rolls_after_a_kill_replayed"] = rolls_after_kill
+    if stop_at_cap < 3 or refusals < 10 or kills < 5 or rolls_after_kill < 10:
+        raise util.ToolError("generated behaviours do not exercise stop-at-cap (%d) / refused writes (%d) / kills "
+                             "inside a roll (%d) and rolls after them (%d)"
+                             % (stop_at_cap, refusals, kills, rolls_after_kill))
     util.log("replaying %d generated behaviours" % len(uniq))
 
     segs, cases, drifts, notes = [], {}, [], []
-    refused_seen = 0
+    refused_seen = kills_seen = 0
     t = util.Timer()
     for i, h in enumerate(uniq):
         case = {"conf": MODEL, "init": {k: h[0][k] for k in ("arch", "cur", "ev", "dumps")},
@@ -663,6 +775,7 @@ def run(c):
         c.traces_validated += 1
         notes += w.notes
         refused_seen += w.refused
+        kills_seen += w.kills
         if drift:
             drifts.append(dict(drift, behaviour=o))
         if i == 0:
@@ -672,11 +785,12 @@ def run(c):
     util.log("replay S->I: %d behaviours, %d drifts in %ss" % (len(uniq), len(drifts), t.s()))
     c.extra["behaviours_replayed"] = len(uniq)
     c.extra["writes_refused_by_the_real_logger"] = refused_seen
+    c.extra["runs_killed_inside_a_roll_on_the_real_logger"] = kills_seen
 
     # 3. random histories, real constants (counts 5 / 30 / 5; the 10 MiB limit in the 'real' ones)
     nsmall, nops = (60, 400) if thorough else (10, 250)
     nbig = 4 if thorough else 1
-    rand_refused = rand_stops_full = 0
+    rand_refused = rand_stops_full = rand_kills = 0
     for i in range(nsmall + nbig):
         big = i >= nsmall
         conf = dict(REAL) if big else dict(REAL, limit=rnd.choice([256, 1000, 4096]))
@@ -694,6 +808,7 @@ def run(c):
         notes += w.notes
         rand_refused += w.refused
         rand_stops_full += w.stops_full
+        rand_kills += w.kills
         if i == 0 or big:
             c.sample({"kind": "random history, real counts" + (", real 10 MiB limit" if big else ""), "conf": conf,
                       "first_ops": steps[:12], "n_ops": len(steps), "observed_last_line": w.rows[-1]})
@@ -701,6 +816,7 @@ def run(c):
     c.extra["random_histories"] = nsmall + nbig
     c.extra["random_histories_writes_refused"] = rand_refused
     c.extra["random_histories_stops_over_full_directory"] = rand_stops_full
+    c.extra["random_histories_runs_killed_inside_a_roll"] = rand_kills
 
     # 4. I->S: everything observed, against the property
     nrows = sum(len(r) for _, r in segs)
@@ -758,14 +874,16 @@ def run(c):
     shutil.rmtree(os.path.join(rundir, "b"), ignore_errors=True)
     c.rule = ("states/transitions: exhaustive TLC runs of DiskBounds (log, event, dumps, log+crash points) with "
               "max=3, limit=4, writes 1..6, directories pre-filled to and beyond the limits, the rename fault switched "
-              "on and off anywhere (log), graceful stops of the event logger anywhere (event); S->I: behaviours "
+              "on and off anywhere (log), runs killed inside a roll and restarted, up to 2 kills per completed roll "
+              "(kill; states identified up to the sizes of archived files), graceful stops of the event logger "
+              "anywhere (event); S->I: behaviours "
               "simulated from the spec (seeded; undirected plus the directed families stop/restart cycles over full "
-              "event directories and writes under the rename fault) replayed on the real code, listing and "
-              "accepted/refused compared after every operation; "
+              "event directories, writes under the rename fault, runs killed inside a roll by a real SIGKILL) "
+              "replayed on the real code, listing and accepted/refused compared after every operation; "
               "I->S: all observed lines plus seeded random histories with the real counts validated by TLC against "
               "the property; evaluations = operations executed on the real code; distinct_nontrivial = distinct "
               "operation sequences in which a bound was actually reached (log files = max, event files >= cap, "
-              "dumps = max, a write refused because the roll failed)")
+              "dumps = max, a write refused because the roll failed, a run killed inside a roll)")
 
 
 def replay(c, path):
